@@ -73,7 +73,8 @@ type Case struct {
 	Emit     string `json:"emit"`     // out | err | both
 	Size     int    `json:"size"`     // bytes per emitting stream and attempt
 	Blk      int    `json:"blk"`      // emitter block size
-	SlowDone int    `json:"slowdone"` // ms the reader of the done channel takes per node (0: no channel)
+	SlowDone int    `json:"slowdone"` // ms the reader of the done channel takes per node (0: prompt reader / no channel)
+	Done     int    `json:"done"`     // 1: Schedule gets a done channel with a prompt reader, as the agent passes one
 	// observations
 	Hang       bool                `json:"hang"`
 	Err        string              `json:"err,omitempty"`
@@ -319,13 +320,15 @@ func workerMain() {
 	ctx := dag.NewContext(context.Background(), d, nil, "c12c12c12", filepath.Join(dir, "sched.log"))
 	var done chan *scheduler.Node
 	var rd sync.WaitGroup
-	if c.SlowDone > 0 {
+	if c.SlowDone > 0 || c.Done == 1 {
 		done = make(chan *scheduler.Node)
 		rd.Add(1)
 		go func() {
 			defer rd.Done()
 			for { // the agent writes the status file / sends a report mail between two receives
-				time.Sleep(time.Duration(c.SlowDone) * time.Millisecond)
+				if c.SlowDone > 0 {
+					time.Sleep(time.Duration(c.SlowDone) * time.Millisecond)
+				}
 				if _, ok := <-done; !ok {
 					return
 				}
@@ -383,21 +386,9 @@ func cleanEnv() []string {
 	return e
 }
 
-// watchdog: 5 s where the model says the step may block for good (output: with more than half a pipe towards the
-// capture pipe); elsewhere a generous 25 s so that a loaded machine is not mistaken for a hang
-func watchdog(c *Case) time.Duration {
-	flow := 0
-	if c.Emit == "out" || c.Emit == "both" {
-		flow += c.Size
-	}
-	if (c.Emit == "err" || c.Emit == "both") && !c.Stderr {
-		flow += c.Size
-	}
-	if c.Output && flow > 32768 {
-		return 5 * time.Second
-	}
-	return 25 * time.Second
-}
+// watchdog: no configuration is expected to block any more (f5eca82); generous, so that a loaded machine is not
+// mistaken for a hang
+func watchdog(c *Case) time.Duration { return 25 * time.Second }
 
 func runCase(c *Case, base string) {
 	t0 := time.Now()
@@ -461,9 +452,9 @@ var sizes = []int{0, 1, 4095, 4096, 4097, 65535, 65536, 65537, 1 << 20}
 var emits = []string{"out", "err", "both"}
 var blks = []int{0, 4096, 1000, 32768}
 
-type row [8]int // stdout stderr output script retries emit size failall
+type row [9]int // stdout stderr output script retries emit size failall done
 
-var dims = [8]int{2, 2, 2, 2, 3, 3, 9, 2}
+var dims = [9]int{2, 2, 2, 2, 3, 3, 9, 2, 2}
 
 func rowCase(r row, rng *vh.Rng) *Case {
 	c := &Case{Stream: "matrix", Stdout: r[0] == 1, Stderr: r[1] == 1, Output: r[2] == 1, Script: r[3] == 1,
@@ -472,6 +463,7 @@ func rowCase(r row, rng *vh.Rng) *Case {
 	if r[7] == 1 {
 		c.Fails = c.Retries + 1 // every attempt fails: the step ends failed
 	}
+	c.Done = r[8]
 	return c
 }
 
@@ -479,8 +471,8 @@ func rowCase(r row, rng *vh.Rng) *Case {
 func pairwise(rng *vh.Rng, n int) []row {
 	type pr struct{ i, a, j, b int }
 	unc := map[pr]bool{}
-	for i := 0; i < 8; i++ {
-		for j := i + 1; j < 8; j++ {
+	for i := 0; i < 9; i++ {
+		for j := i + 1; j < 9; j++ {
 			for a := 0; a < dims[i]; a++ {
 				for b := 0; b < dims[j]; b++ {
 					unc[pr{i, a, j, b}] = true
@@ -497,8 +489,8 @@ func pairwise(rng *vh.Rng, n int) []row {
 	}
 	gain := func(r row) int {
 		g := 0
-		for i := 0; i < 8; i++ {
-			for j := i + 1; j < 8; j++ {
+		for i := 0; i < 9; i++ {
+			for j := i + 1; j < 9; j++ {
 				if unc[pr{i, r[i], j, r[j]}] {
 					g++
 				}
@@ -521,8 +513,8 @@ func pairwise(rng *vh.Rng, n int) []row {
 				break
 			}
 		}
-		for i := 0; i < 8; i++ {
-			for j := i + 1; j < 8; j++ {
+		for i := 0; i < 9; i++ {
+			for j := i + 1; j < 9; j++ {
 				delete(unc, pr{i, best[i], j, best[j]})
 			}
 		}
@@ -576,7 +568,7 @@ func main() {
 				continue
 			}
 			in := Case{Stream: c.Stream, Stdout: c.Stdout, Stderr: c.Stderr, Output: c.Output, Script: c.Script, Retries: c.Retries,
-				Fails: c.Fails, Emit: c.Emit, Size: c.Size, Blk: c.Blk, SlowDone: c.SlowDone}
+				Fails: c.Fails, Emit: c.Emit, Size: c.Size, Blk: c.Blk, SlowDone: c.SlowDone, Done: c.Done}
 			add(&in)
 		}
 	} else {
@@ -585,8 +577,9 @@ func main() {
 			var r row
 			var rec func(i int)
 			rec = func(i int) {
-				if i == 7 { // failall only together with retries (sampled), the rest in full
+				if i == 7 { // failall and the done channel are sampled, the rest in full
 					r[7] = 0
+					r[8] = rng.Below(2)
 					add(rowCase(r, rng))
 					return
 				}
@@ -596,8 +589,7 @@ func main() {
 				}
 			}
 			rec(0)
-			for _, rr := range pairwise(rng, 200) {
-				rr[7] = 1
+			for _, rr := range pairwise(rng, 300) {
 				add(rowCase(rr, rng))
 			}
 		} else {
